@@ -10,6 +10,7 @@ import (
 	"os"
 	"os/exec"
 	"path/filepath"
+	"runtime"
 	"sort"
 	"strings"
 	"sync"
@@ -1067,6 +1068,8 @@ func c32Sharded(c *mc.Check, r *c32Run, n int, budget float64) (runs int64) {
 func TestVerifC32(t *testing.T) {
 	c := mc.Begin(t, "C32", "model_checking")
 	defer c.End()
+	// the explorer is serial; one P keeps the goroutine-exit spin of the node assembly reliable on a loaded machine
+	defer runtime.GOMAXPROCS(runtime.GOMAXPROCS(1))
 	r := &c32Run{c: c, t: t, seed: c.Seed(), stats: c32NewStats()}
 	quick := !c.Thorough()
 
